@@ -769,4 +769,335 @@ theorem renderableF_D : ∀ (l : List (Form × PV)), renderableF l = true → re
     exact ⟨renderable_D x h.1, renderableF_D xs h.2⟩
 end
 
+/-! ### every generated tuple has at most 26 components -/
+
+theorem finOk_tuplesOk (es : List VExpr) (h : tuplesOkL es = true) : (finOk es).tuplesOk = true := by
+  match es, h with
+  | [], _ => simp [finOk, VExpr.tuplesOk]
+  | [x], h => simpa [finOk, tuplesOkL] using h
+  | x :: y :: zs, h => exact fitAux_tuplesOk _ _ (Nat.le_refl _) h
+
+theorem tuplesOkL_append (a b : List VExpr) :
+    tuplesOkL (a ++ b) = (tuplesOkL a && tuplesOkL b) := by
+  induction a with
+  | nil => simp [tuplesOkL]
+  | cons x xs ih => simp [tuplesOkL, ih, Bool.and_assoc]
+
+theorem finishView_tuplesOk {r : Res (List VExpr)} {e : VExpr}
+    (hr : ∀ es, r = .ok es → tuplesOkL es = true) (h : finishView r = .ok e) : e.tuplesOk = true := by
+  cases r with
+  | err k => simp [finishView] at h
+  | panic p => simp [finishView] at h
+  | ok es =>
+    rw [finishView_okEq] at h
+    simp only [Res.ok.injEq] at h; subst h
+    exact finOk_tuplesOk es (hr es rfl)
+
+mutual
+theorem flatten_tuplesOk : ∀ (v : PV) (es : List VExpr), flatten v = .ok es → tuplesOkL es = true
+  | .dflt, es, h => by simp [flatten] at h
+  | .subkeys _, es, h => by simp [flatten] at h
+  | .fk (.notSet _ _), es, h => by simp [flatten] at h
+  | .lit l, es, h => by
+    simp only [flatten, Res.ok.injEq] at h; subst h
+    cases l <;> simp [tuplesOkL, litTok, VExpr.tuplesOk]
+  | .var k f, es, h => by
+    simp only [flatten, Res.ok.injEq] at h; subst h
+    simp [tuplesOkL, VExpr.tuplesOk]
+  | .comp k inner, es, h => by
+    simp only [flatten] at h
+    cases hf : finishView (flatten inner) with
+    | err e => rw [hf] at h; simp at h
+    | panic p => rw [hf] at h; simp at h
+    | ok e =>
+      rw [hf] at h
+      simp only [Res.ok.injEq] at h; subst h
+      have := finishView_tuplesOk (fun es hes => flatten_tuplesOk inner es hes) hf
+      simp [tuplesOkL, VExpr.tuplesOk, this]
+  | .bloc items, es, h => by
+    simp only [flatten] at h
+    exact flattenL_tuplesOk items es h
+  | .fk (.set inner), es, h => by
+    simp only [flatten] at h
+    exact flatten_tuplesOk inner es h
+  | .ranges ck ty bs, es, h => by
+    simp only [flatten] at h
+    split at h
+    · simp at h
+    · cases ha : armsView bs with
+      | err e => rw [ha] at h; simp at h
+      | panic p => rw [ha] at h; simp at h
+      | ok arms =>
+        rw [ha] at h
+        simp only [Res.ok.injEq] at h; subst h
+        simp [tuplesOkL, VExpr.tuplesOk, armsView_tuplesOk bs arms ha]
+  | .plurals rule ck other forms, es, h => by
+    simp only [flatten] at h
+    cases ho : finishView (flatten other) with
+    | err e => rw [ho] at h; simp at h
+    | panic p => rw [ho] at h; simp at h
+    | ok o =>
+      rw [ho] at h
+      simp only at h
+      cases hf : formsView forms with
+      | err e => rw [hf] at h; simp at h
+      | panic p => rw [hf] at h; simp at h
+      | ok arms =>
+        rw [hf] at h
+        simp only [Res.ok.injEq] at h; subst h
+        have := finishView_tuplesOk (fun es hes => flatten_tuplesOk other es hes) ho
+        simp [tuplesOkL, VExpr.tuplesOk, formsView_tuplesOk forms arms hf, this]
+theorem flattenL_tuplesOk : ∀ (items : List PV) (es : List VExpr),
+    flattenL items = .ok es → tuplesOkL es = true
+  | [], es, h => by
+    simp only [flattenL, Res.ok.injEq] at h; subst h; simp [tuplesOkL]
+  | x :: xs, es, h => by
+    simp only [flattenL] at h
+    cases hx : flatten x with
+    | err e => rw [hx] at h; simp at h
+    | panic p => rw [hx] at h; simp at h
+    | ok a =>
+      rw [hx] at h
+      simp only at h
+      cases hxs : flattenL xs with
+      | err e => rw [hxs] at h; simp at h
+      | panic p => rw [hxs] at h; simp at h
+      | ok b =>
+        rw [hxs] at h
+        simp only [Res.ok.injEq] at h; subst h
+        simp [tuplesOkL_append, flatten_tuplesOk x a hx, flattenL_tuplesOk xs b hxs]
+theorem armsView_tuplesOk : ∀ (bs : List (Range × PV)) (arms : List (Range × VExpr)),
+    armsView bs = .ok arms → tuplesOkA arms = true
+  | [], arms, h => by
+    simp only [armsView, Res.ok.injEq] at h; subst h; simp [tuplesOkA]
+  | (r, v) :: rest, arms, h => by
+    simp only [armsView] at h
+    cases hv : finishView (flatten v) with
+    | err e => rw [hv] at h; simp at h
+    | panic p => rw [hv] at h; simp at h
+    | ok e =>
+      rw [hv] at h
+      simp only at h
+      cases hr : armsView rest with
+      | err e => rw [hr] at h; simp at h
+      | panic p => rw [hr] at h; simp at h
+      | ok arms' =>
+        rw [hr] at h
+        simp only [Res.ok.injEq] at h; subst h
+        have := finishView_tuplesOk (fun es hes => flatten_tuplesOk v es hes) hv
+        simp [tuplesOkA, this, armsView_tuplesOk rest arms' hr]
+theorem formsView_tuplesOk : ∀ (fs : List (Form × PV)) (arms : List (Form × VExpr)),
+    formsView fs = .ok arms → tuplesOkF arms = true
+  | [], arms, h => by
+    simp only [formsView, Res.ok.injEq] at h; subst h; simp [tuplesOkF]
+  | (f, v) :: rest, arms, h => by
+    simp only [formsView] at h
+    cases hv : finishView (flatten v) with
+    | err e => rw [hv] at h; simp at h
+    | panic p => rw [hv] at h; simp at h
+    | ok e =>
+      rw [hv] at h
+      simp only at h
+      cases hr : formsView rest with
+      | err e => rw [hr] at h; simp at h
+      | panic p => rw [hr] at h; simp at h
+      | ok arms' =>
+        rw [hr] at h
+        simp only [Res.ok.injEq] at h; subst h
+        have := finishView_tuplesOk (fun es hes => flatten_tuplesOk v es hes) hv
+        simp [tuplesOkF, this, formsView_tuplesOk rest arms' hr]
+end
+
+/-! ### `EitherOfWrapper` -/
+
+theorem eitherNewAux_spec : ∀ (fuel n : Nat), n ≤ fuel → 1 ≤ n →
+    ∃ w, eitherNewAux fuel n = some w ∧ w.size = n ∧ w.wf = true := by
+  intro fuel
+  induction fuel with
+  | zero => intro n h1 h2; omega
+  | succ f ih =>
+    intro n h1 h2
+    match n, h1, h2 with
+    | 1, _, _ => exact ⟨.single, by simp [eitherNewAux], rfl, rfl⟩
+    | 2, _, _ => exact ⟨.duo, by simp [eitherNewAux], rfl, rfl⟩
+    | m + 3, h1, _ =>
+      simp only [eitherNewAux]
+      by_cases hm : m + 3 ≤ 16
+      · refine ⟨.multiple (m + 3), by simp [hm], rfl, ?_⟩
+        simp [Wrapper.wf, hm]
+      · obtain ⟨w, hw, hs, hwf⟩ := ih (m - 12) (by omega) (by omega)
+        refine ⟨.nested w, by simp [hm, hw], ?_, ?_⟩
+        · simp only [Wrapper.size, hs]; omega
+        · simpa [Wrapper.wf] using hwf
+
+theorem eitherNew_spec (n : Nat) (h : 1 ≤ n) :
+    ∃ w, eitherNew n = some w ∧ w.size = n ∧ w.wf = true :=
+  eitherNewAux_spec n n (Nat.le_refl _) h
+
+/-- more fuel than `size` changes nothing -/
+theorem eitherNewAux_fuel : ∀ (f1 f2 n : Nat), n ≤ f1 → n ≤ f2 →
+    eitherNewAux f1 n = eitherNewAux f2 n := by
+  intro f1
+  induction f1 with
+  | zero =>
+    intro f2 n h1 _
+    have : n = 0 := by omega
+    subst this
+    cases f2 <;> simp [eitherNewAux]
+  | succ f ih =>
+    intro f2 n h1 h2
+    match n, h1, h2 with
+    | 0, _, _ => cases f2 <;> simp [eitherNewAux]
+    | 1, _, _ => cases f2 <;> simp [eitherNewAux]
+    | 2, _, _ => cases f2 <;> simp [eitherNewAux]
+    | m + 3, h1, h2 =>
+      cases f2 with
+      | zero => omega
+      | succ g =>
+        simp only [eitherNewAux]
+        by_cases hm : m + 3 ≤ 16
+        · simp [hm]
+        · simp only [hm, if_false]
+          rw [ih g (m + 3 - 15) (by omega) (by omega)]
+
+theorem wrap_defined : ∀ (w : Wrapper) (i : Nat), w.wf = true → i < w.size →
+    ∃ p, wrap w i = some p ∧ w.validPath p = true
+  | .single, i, _, _ => ⟨[], by simp [wrap], by simp [Wrapper.validPath]⟩
+  | .duo, i, _, hi => by
+    refine ⟨[if i = 0 then 0 else 1], by simp [wrap], ?_⟩
+    simp only [Wrapper.validPath]
+    split <;> simp
+  | .multiple n, i, hwf, hi => by
+    simp only [Wrapper.wf, Bool.and_eq_true, decide_eq_true_eq] at hwf
+    simp only [Wrapper.size] at hi
+    refine ⟨[i], ?_, ?_⟩
+    · have : i < 16 := by omega
+      simp [wrap, this]
+    · simp [Wrapper.validPath, hi]
+  | .nested last, i, hwf, hi => by
+    simp only [Wrapper.wf] at hwf
+    simp only [Wrapper.size] at hi
+    by_cases h14 : i ≤ 14
+    · refine ⟨[i], by simp [wrap, h14], ?_⟩
+      have : i < 15 := by omega
+      simp [Wrapper.validPath, this]
+    · obtain ⟨p, hp, hv⟩ := wrap_defined last (i - 15) hwf (by omega)
+      refine ⟨15 :: p, by simp [wrap, h14, hp], ?_⟩
+      simp [Wrapper.validPath, hv]
+
+theorem wrap_injective : ∀ (w : Wrapper) (i j : Nat), w.wf = true → i < w.size → j < w.size →
+    wrap w i = wrap w j → i = j
+  | .single, i, j, _, hi, hj, _ => by simp only [Wrapper.size] at hi hj; omega
+  | .duo, i, j, _, hi, hj, h => by
+    simp only [Wrapper.size] at hi hj
+    simp only [wrap, Option.some.injEq, List.cons.injEq, and_true] at h
+    by_cases h0 : i = 0 <;> by_cases h1 : j = 0 <;> simp [h0, h1] at h <;> omega
+  | .multiple n, i, j, hwf, hi, hj, h => by
+    simp only [Wrapper.wf, Bool.and_eq_true, decide_eq_true_eq] at hwf
+    simp only [Wrapper.size] at hi hj
+    have h1 : i < 16 := by omega
+    have h2 : j < 16 := by omega
+    simpa [wrap, h1, h2] using h
+  | .nested last, i, j, hwf, hi, hj, h => by
+    simp only [Wrapper.wf] at hwf
+    simp only [Wrapper.size] at hi hj
+    simp only [wrap] at h
+    by_cases hi14 : i ≤ 14 <;> by_cases hj14 : j ≤ 14
+    · simpa [hi14, hj14] using h
+    · simp only [hi14, hj14, if_true, if_false] at h
+      cases hw : wrap last (j - 15) with
+      | none => rw [hw] at h; simp at h
+      | some p => rw [hw] at h; simp at h; omega
+    · simp only [hi14, hj14, if_true, if_false] at h
+      cases hw : wrap last (i - 15) with
+      | none => rw [hw] at h; simp at h
+      | some p => rw [hw] at h; simp at h; omega
+    · simp only [hi14, hj14, if_false] at h
+      have hh : wrap last (i - 15) = wrap last (j - 15) := by
+        cases h1 : wrap last (i - 15) <;> cases h2 : wrap last (j - 15) <;> simp_all
+      have := wrap_injective last (i - 15) (j - 15) hwf (by omega) (by omega) hh
+      omega
+
+/-! ### scoping -/
+
+theorem lookup_nil {α : Type} (t : KTree α) : t.lookup [] = some t := by
+  cases t <;> simp [KTree.lookup]
+
+theorem lookup_append {α : Type} : ∀ (p q : List Str) (t : KTree α),
+    t.lookup (p ++ q) = (t.lookup p).bind (fun t' => t'.lookup q)
+  | [], q, t => by simp [lookup_nil]
+  | k :: ks, q, .leaf a => by
+    cases q <;> simp [KTree.lookup]
+  | k :: ks, q, .node kids => by
+    simp only [List.cons_append, KTree.lookup]
+    cases AMap.get? k kids with
+    | none => simp
+    | some c => simp only; exact lookup_append ks q c
+
+theorem scopeChain_eq {α : Type} : ∀ (ps : List (List Str)) (t : KTree α),
+    t.scopeChain ps = t.lookup ps.flatten
+  | [], t => by simp [KTree.scopeChain, lookup_nil]
+  | p :: ps, t => by
+    simp only [KTree.scopeChain, KTree.scope, List.flatten_cons, lookup_append]
+    congr 1
+    funext t'
+    exact scopeChain_eq ps t'
+
+theorem slScopeChain_eq : ∀ (ps : List (List Str)) (sl : ScopedLocale),
+    sl.scopeChain ps = { locale := sl.locale, pfx := sl.pfx ++ ps.flatten }
+  | [], sl => by simp [ScopedLocale.scopeChain]
+  | p :: ps, sl => by
+    simp [ScopedLocale.scopeChain, slScopeChain_eq ps, ScopedLocale.scope, List.append_assoc]
+
+/-! ### per-key locale dispatch -/
+
+theorem find?_unique {α : Type} (l : List α) (p : α → Bool) (d : α) (hd : d ∈ l) (hp : p d = true)
+    (hu : ∀ x ∈ l, p x = true → x = d) : l.find? p = some d := by
+  cases h : l.find? p with
+  | none =>
+    rw [List.find?_eq_none] at h
+    exact absurd hp (by simpa using h d hd)
+  | some x =>
+    have h1 := List.find?_some h
+    have h2 := List.mem_of_find?_eq_some h
+    rw [hu x h2 h1]
+
+theorem mem_armPats (compute : List (Str × List Str)) (d l : Str) :
+    l ∈ armPats compute d ↔ l = d ∨ ∃ s, AMap.get? d compute = some s ∧ l ∈ s := by
+  simp only [armPats, List.mem_cons]
+  cases AMap.get? d compute with
+  | none => simp
+  | some s => simp
+
+/-! ### `range_to_condition` agrees with `do_match` -/
+
+theorem Dec.eq_comm (a b : Dec) : Dec.eq a b = Dec.eq b a := by
+  simp only [Dec.eq]
+  exact Bool.eq_iff_iff.mpr (by simp only [beq_iff_eq]; exact _root_.eq_comm)
+
+mutual
+theorem rangeCond_doMatch (c : Dec) : ∀ (r : Range), noInnerFallback r = true →
+    condTaken r c = Ranges.doMatch r c
+  | .exact v, _ => by simp [condTaken, rangeCond, Ranges.doMatch, Dec.eq_comm c v]
+  | .bounds start stop, _ => by
+    cases start <;> cases stop <;> simp [condTaken, rangeCond, Ranges.doMatch]
+  | .fallback, _ => by simp [condTaken, rangeCond, Ranges.doMatch]
+  | .multi l, h => by
+    simp only [noInnerFallback] at h
+    simp [condTaken, rangeCond, Ranges.doMatch, rangeCondAny_doMatch c l h]
+theorem rangeCondAny_doMatch (c : Dec) : ∀ (l : List Range), noInnerFallbackL l = true →
+    rangeCondAny l c = Ranges.doMatch.doMatchAny l c
+  | [], _ => by simp [rangeCondAny, Ranges.doMatch.doMatchAny]
+  | r :: rs, h => by
+    simp only [noInnerFallbackL, Bool.and_eq_true, Bool.not_eq_true'] at h
+    have ih1 := rangeCond_doMatch c r h.1.2
+    have ih2 := rangeCondAny_doMatch c rs h.2
+    simp only [rangeCondAny, Ranges.doMatch.doMatchAny, ← ih1, ← ih2, condTaken]
+    cases r with
+    | fallback => simp [Ranges.isFallback] at h
+    | exact v => simp [rangeCond]
+    | bounds a b => simp [rangeCond]
+    | multi l' => simp [rangeCond]
+end
+
 end I18nVerif.Codegen
